@@ -33,6 +33,7 @@ CLAIMED = {
     'C06': ('6/C06', "Extraction is specified on the set-based tree (Grammar.ExtractRule: func, linearization by block scanning, vertical context); TLC checks on every tree within the bounds that the linearization instantiated with the children's blocks gives the node's blocks using every block once and in order, fan-outs, counts, flow and context-free iff continuous; each tree, alone and in treebanks with repetitions, goes through the real extract and TLC compares the dumped dicts (one_rule_per_node, func, lin_instantiates, vert, counts, lexicon, fanout, contextfree_iff_continuous).", 'TLC/SANY/CommunityModules (Bags, Json); mechanical dump of the nested grammar/lexicon dicts; small-scope hypothesis beyond the bounds', 'TLA+ spec (Grammar.tla) + TLC model checking + TLC trace validation of dumped grammar state'),
     'C07': ('6/C07', "linsub and the chain construction are transcribed as a state machine with one action per RHS element (BinStart/BinStep/BinLast); TLC builds ALL canonical LCFRS rules up to rank 4/5 and 5/7 variable occurrences and checks, for deterministic and Markovized labels and both reorderings, that the produced chain composes to the original linearization with consistent fan-outs; every enumerated rule and random treebank grammars are binarized by the real code in 10 modes and TLC searches the output grammar for a composing chain (existential, up to reordering), rank 2, unique labels, un-binarization, small rules kept.", 'TLC/SANY/CommunityModules (Bags, Json); mechanical dump of the nested grammar/lexicon dicts; small-scope hypothesis beyond the bounds', 'TLA+ spec (Grammar.tla, GrammarProps.tla) + TLC model checking + TLC trace validation'),
     'C08': ('6/C08', "Grammars, lexicon and root labels are bags; TLC checks per-LHS totals and flow conservation (rules rewriting s + lexicon count of s = count-weighted RHS occurrences + root occurrences) for the extracted grammar and every binarized grammar (10 modes) of treebanks in which rules repeat under different parents.", 'TLC/SANY/CommunityModules (Bags, Json); mechanical dump of the nested grammar/lexicon dicts; small-scope hypothesis beyond the bounds', 'TLA+ spec (GrammarProps.tla: Flow, LhsTotals) + TLC trace validation of dumped grammar state'),
+    'C09': ('6/C09', "PMCFG, RCG, lexicon and LoPar files are decoded by TLA+ operators over lexical records (GrammarFiles.tla: which line is what, references resolving, shared sequence ids, arity suffixes, start symbols, open-class counts); for grammars extracted from enumerated and random treebanks, raw and binarized in every mode, the real writers produce files in a temp directory, the tool's RCG reader re-reads them, and `treetools grammar` is run as a subprocess on tree and RCG input; TLC decides pmcfg.decodes, rcg.decodes, rcg.reader_roundtrip, lex.counts, lex_in_grammar, lopar.gram/start/oc/OC, lopar.refuses_lcfrs, cli_grammar_input_not_empty.", 'TLC/SANY/CommunityModules; the harness splits lines into tokens (whitespace, ":" pairs, "[n]" variables, "(" of predicates); vocabularies disjoint from nonterminals; labels without trailing digits/parentheses (as the property states)', 'TLA+ decoders (GrammarFiles.tla) + TLC trace validation of written files; grammars from TLC-enumerated trees'),
 }
 
 NOT_YET = 'check not built yet (work in progress, see DESIGN.md section 12)'
